@@ -88,8 +88,8 @@ def run(ctx):
     files = ['c04.rs', 'c04p.rs', 'c15.rs']
     if ctx.only is None: coverage_check(ctx, files)
     # Engine M (handler mode): the payout handlers verify the position authority before any transfer; Pinocchio handlers verify it before touching state
-    from props import hm, pino
+    from props import hm, pino, c15m      # c15m: Anchor-generated account validation from MIR (authority signed, exactly one position token of this position, ...)
     ctx.mir()
     ctx.parallel([('collect_fees', hm.collect_fees_task(False)), ('collect_fees_v2', hm.collect_fees_task(True)),
-                  ('collect_reward', hm.collect_reward_task(False, 0)), ('collect_reward_v2', hm.collect_reward_task(True, 0))] + pino.tasks(), max_procs=8)
+                  ('collect_reward', hm.collect_reward_task(False, 0)), ('collect_reward_v2', hm.collect_reward_task(True, 0))] + pino.tasks() + c15m.tasks(), max_procs=8)
     ctx.run_kani(files)
